@@ -19,6 +19,7 @@ type rtRig struct {
 	rawRecv lime.Transport // ... and this transport's Receive decodes them
 	sendT   lime.Transport // Send on this end ...
 	recvT   lime.Transport // ... Receive on this one
+	prev    []byte         // wire form of the previous envelope that went through rawRecv
 }
 
 func newRTRig() *rtRig {
@@ -85,6 +86,28 @@ func checkRoundTrip(spec *EnvSpec, rig *rtRig, wsVariant int, o *Outcome) {
 	case 3:
 		frame = append(append([]byte("\n\n"), b...), '\n')
 	}
+	// every other case: first a refused relative of the previous envelope (all of its members, then an unknown event) on the
+	// same connection. The receive path must answer it with an error and hand over the next envelope unaffected by it.
+	if prev := rig.prev; wsVariant%2 == 1 && len(prev) > 2 && prev[len(prev)-1] == '}' {
+		sep := ","
+		if len(bytes.TrimSpace(prev[1:len(prev)-1])) == 0 {
+			sep = ""
+		}
+		refused := append(append([]byte{}, prev[:len(prev)-1]...), []byte(sep+`"event":"#no-such-event#"}`+"\n")...)
+		if _, err := rig.raw.Write(refused); err != nil {
+			o.Fail("C01/harness/feed", "%v", err)
+			return
+		}
+		if e, err := TReceive(ctx, rig.rawRecv); err == nil {
+			o.Fail("C01/transport-receive/refused-envelope-returned", "an envelope with an unknown event was returned as %T | wire=%s", e, truncate(string(refused), 300))
+		}
+		o.Class("after-refused-envelope")
+		if !rig.rawRecv.Connected() {
+			o.Class("transport-closed-by-refused-envelope")
+			return
+		}
+	}
+	rig.prev = b
 	if _, err := rig.raw.Write(frame); err != nil {
 		o.Fail("C01/harness/feed", "%v", err)
 		return
